@@ -272,7 +272,7 @@ fn stop_sending_contract(mut s: Sender) -> Sender {
     s
 }
 
-//@ harness props=C12 tier=thorough level=bounded timeout=1200 bound="1 buffered chunk of 2 bytes, 1 pending interval"
+//@ harness props=C12 tier=thorough level=bounded timeout=2400 bound="1 buffered chunk of 2 bytes, 1 pending interval"
 //@ fn DataSender::stop_sending
 //@ fn DataSender::push
 #[kani::proof]
